@@ -82,6 +82,8 @@ class _Export(Contract):
             cl["intermediate_writes_only_in_temp_dirs"] = And(*[in_tmp(e[1]) for e in writes]) if writes else z3.BoolVal(True)
             cl["converter_output_dir_is_temp"] = And(*[in_tmp(P_JOIN(e[1], lit("x"))) if False else Or(*[e[1] == t for t in tmps])
                                                        for e in eff if e[0] == "convert-writes-under"]) if tmps else z3.BoolVal(True)
+        destructive = [e for e in eff if e[0] in ("unlink", "rmdir", "touch", "rename", "replace", "write_bytes")]
+        cl["no_other_filesystem_effect_outside_temp_dirs"] = And(*[in_tmp(e[1]) for e in destructive]) if destructive else z3.BoolVal(True)
         made = [e[1] for e in eff if e[0] == "mkdtemp"]
         removed = [e[1] for e in eff if e[0] == "rmtree"]
         cl["every_temp_dir_removed"] = z3.BoolVal(all(any(m.eq(r) for r in removed) for m in made))
